@@ -15,7 +15,13 @@ for p in props:
     if not f.exists():
         na.append({"property_id": pid, "reason": "no check built yet (model and theorems planned in DESIGN.md section 6)"})
         continue
-    m = importlib.import_module("props." + pid.lower())
+    try:
+        m = importlib.import_module("props." + pid.lower())
+        for a in ("LEVEL_TEXT", "LEVEL_NOTE", "TECHNIQUE", "correspond"):
+            getattr(m, a)
+    except Exception as e:  # plugin under construction
+        na.append({"property_id": pid, "reason": f"check under construction ({type(e).__name__})"})
+        continue
     if getattr(m, "NOT_APPLICABLE", None):
         na.append({"property_id": pid, "reason": m.NOT_APPLICABLE})
         continue
